@@ -209,6 +209,7 @@ func record(kind, data string, n int64) {
 	if dead && kind != "PANIC" {
 		return // the run is over; tasks that are being ended leave no trace
 	}
+	activity++
 	mu.Lock()
 	events = append(events, Event{Seq: len(events), Kind: kind, Data: data, N: n, T: simMs()})
 	mu.Unlock()
@@ -651,6 +652,7 @@ func Tick() {
 		return // the run is over; this is a deferred call of a task that is being ended
 	}
 	ticks++
+	activity++
 	if len(tasks) > 1 || len(timers) > 0 {
 		maybePreempt()
 	}
